@@ -84,6 +84,26 @@ CHECKS = {
         "document, each write executed on the implementation and on the reference model (including paths that dangle after an earlier write).",
    design="4.C09", note="trusted base: normpath and the 15-line model_set; bounds: document universes, written values, history depth",
    technique="exhaustive node sweep plus explicit-state BFS over update histories, every transition executed on the implementation and a reference model"),
+ "C12": dict(
+   text="Three explorations. (1) Entry-point agreement on the generated query set x document panel: query, query_only_path, query_with_path, a query parsed once (run twice, and cloned) "
+        "agree position by position and leave the document unchanged. (2) Histories: every ordered pair of a 32-operation alphabet (chosen to collide on anything a cache could key on) "
+        "in its own fresh process, and every window of length w in one long-lived process, each result compared with the same operation run first in a fresh process. (3) Schedules: "
+        "stateless depth-first exploration of every interleaving with at most k preemptions (iterated 0..k) of two or three real threads sharing one parsed query and one document, "
+        "with scheduling points hooked into every evaluation step of jsonpath-rust; each thread's results must equal the operations run alone; failing schedules are replayed twice.",
+   design="4.C12", note="scheduling points exist only at the cfg-guarded hooks (entry of every Query::process impl, each filter item, between regex compilation and matching); Send + Sync is a type-check side condition (mc/static_assert); bounds: operation alphabet, window length, harness bodies, preemption bound",
+   technique="stateless preemption-bounded schedule exploration of the real code under a controlled scheduler, plus exhaustive operation-history enumeration against a fresh-process baseline"),
+ "C13": dict(
+   text="For every abstract query of the generated set, every concrete spelling with one deviation from the canonical rendering (and all pairs / triples of deviations for every n-th query, "
+        "plus all-sites-at-once variants): name as .n / ['n'] / [\"n\"], .* / [*], ..n / ..['n'], ?e / ?(e) / ?((e)), redundant parentheses, string and number literal spellings, each blank "
+        "kind at each S site. Differential oracle: same parse outcome and same node sequence by address as the canonical spelling on every panel document. Every generated spelling is first "
+        "required to be valid by the RFC recogniser (machinery guard).",
+   design="4.C13", note="differential (no model needed for the verdict); bounds: abstract query set, k, document panel",
+   technique="exhaustive enumeration of spelling variants up to k deviations with a differential oracle against the canonical spelling"),
+ "C15": dict(
+   text="Lock-step evaluation at three implementations of the Queryable trait (serde_json::Value, an association-list view with one number type, a strict-accessor view) converted from the "
+        "same documents preserving member order: the generated query set x panel, the whole comparison table packed into one document, the slice cube; paths and serialized values must be identical.",
+   design="4.C15", note="the alternative views strip key quotes exactly like the Value implementation (the trait leaves it to the implementor); extension functions are Value-only and excluded",
+   technique="exhaustive enumeration of the query/document spaces of the other checks, run in lock-step over several trait implementations (differential)"),
 }
 
 checks = []
